@@ -46,7 +46,19 @@ def gen_case(rng, tier, idx):
                      "events_per_year": 4.0, "bunds": 0.5, "field_p": 0.7, "archetypes": ["tropical", "temperate"], "station_p": 0.0,
                      "soils": ["Clay", "ClayLoam", "SiltClay", "Paddy", "SiltClayLoam", "Loam"], "iwc_kinds": ["Prop"]})
     spec = gen_spec(rng, prof)
-    if spec.get("gw") and len(spec["gw"]["dates"]) > 1:
+    g = spec.get("gw")
+    iwc = spec["iwc"]
+    if (g and g["method"] == "Constant" and len(g["dates"]) > 1 and rng.random() < 0.8
+            and not (iwc["wc_type"] == "Prop" and iwc["value"][-1] == "FC")):
+        # a step-wise table that stays below the (possibly deepened) profile but within capillary reach of it: the configured
+        # initial water content then does not depend on the table depth of the first day (it does only for 'FC' contents and
+        # for a table inside the profile), so season k must still equal a fresh run - whatever the table did before season k
+        kw = spec["soil"].get("kwargs") or {}
+        depth = round(sum(kw["dz"]), 2) if "dz" in kw else (2.0 if spec["soil"]["type"] == "ac_TunisLocal" else 1.2)
+        zmax = float((spec["crop"].get("overrides") or {}).get("Zmax", CROP_INFO[spec["crop"]["name"]]["Zmax"]))
+        bottom = max(depth, zmax + 0.1)
+        g["values"] = [round(bottom + rng.choice([0.1, 0.2, 0.4, 0.6, 0.9, 1.3]) + rng.uniform(0, 0.05), 2) for _ in g["values"]]
+    elif spec.get("gw") and len(spec["gw"]["dates"]) > 1:
         # a time-varying table makes "the configured initial condition" depend on the start date (the initial
         # water content follows the table depth on the first day): keep the table constant for this comparison
         spec["gw"] = {"water_table": "Y", "method": "Constant", "dates": spec["gw"]["dates"][:1], "values": spec["gw"]["values"][:1]}
